@@ -172,9 +172,16 @@ def expand_plugs(cfg, devname):
 def run_impl(exe, scratch, idx, cfg, ops):
     path = os.path.join(scratch, "dev%d.conf" % idx)
     open(path, "w").write(cfg.text())
-    rc, o, e = vlib.sh(["timeout", "-s", "KILL", "60", exe, path], shell=False, inp=("\n".join(ops) + "\n").encode(), timeout=70,
+    # a change that makes the device layer spin would cost the full budget on every case (hours): once a few cases were killed by the
+    # time-out the property is violated anyway and the remaining cases get a short budget (a healthy case takes milliseconds)
+    t = 60 if SPUN[0] < 8 else 5
+    rc, o, e = vlib.sh(["timeout", "-s", "KILL", str(t), exe, path], shell=False, inp=("\n".join(ops) + "\n").encode(), timeout=t + 10,
                        env={"ASAN_OPTIONS": "detect_leaks=0"})
+    if rc in (137, -9): SPUN[0] += 1
     return rc, o, e
+
+
+SPUN = [0]
 
 
 def devtab_from_enq(enq, scratch, idx, cfg):
